@@ -23,7 +23,7 @@ RULE = ("notes = names (7 letters x every '#'/'b' string up to length 4 in all o
         "and with an octave suffix. Non-trivial: name with an accidental (incl. spellings that cross the octave "
         "boundary, Cb / B#), pair of different letters, detune != 0, bound value outside the range, malformed string "
         "sharing a valid prefix."
-        " Also: the same Note object reused across Hz conversions with different standard pitches; velocity / channel bounds together with the 'Name-octave' text form; a coverage-guided atheris campaign over name-like text.")
+        " Also: the same Note object reused across Hz conversions with different standard pitches; velocity / channel bounds together with the 'Name-octave' text form; a coverage-guided atheris campaign over name-like text; comparisons between notes that differ in velocity and channel (half of them of equal pitch).")
 ASSUMPTIONS = [
     "'printed form' is repr(note), a quoted Python string literal; it is unquoted with ast.literal_eval before being fed back",
     "malformed names are non-empty strings without '-' that do not match [A-G][#b]*, alone or followed by '-<int>' "
@@ -129,8 +129,13 @@ def check_int(ctx, i):
 
 
 def check_pair(ctx, case):
-    (n1, o1), (n2, o2) = case
-    a, b = ctx.ok("construct", Note, n1, o1), ctx.ok("construct", Note, n2, o2)
+    (n1, o1), (n2, o2) = case[0], case[1]
+    if len(case) == 3:  # loudness and channel differ between the two notes: comparisons are by pitch alone
+        (v1, c1), (v2, c2) = case[2]
+        a = ctx.ok("construct", lambda: Note(n1, o1, velocity=v1, channel=c1))
+        b = ctx.ok("construct", lambda: Note(n2, o2, velocity=v2, channel=c2))
+    else:
+        a, b = ctx.ok("construct", Note, n1, o1), ctx.ok("construct", Note, n2, o2)
     if failed(a) or failed(b):
         return ctx.note_case(False, ["pair:construct-failed"])
     pa, pb = T.pitch(n1, o1), T.pitch(n2, o2)
@@ -138,9 +143,10 @@ def check_pair(ctx, case):
         r = ctx.ok("compare/" + sym, op, a, b)
         if not failed(r):
             ctx.check(isinstance(r, bool) and r == op(pa, pb), "compare/" + sym,
-                      lambda: "Note(%r,%d) %s Note(%r,%d) -> %r; pitches %d, %d" % (n1, o1, sym, n2, o2, r, pa, pb))
+                      lambda: "Note(%r,%d) %s Note(%r,%d) -> %r; pitches %d, %d%s" % (
+                          n1, o1, sym, n2, o2, r, pa, pb, "; (velocity, channel) %r" % (case[2],) if len(case) == 3 else ""))
     ctx.note_case(n1[0] != n2[0] and (len(n1) > 1 or len(n2) > 1),
-                  ["pair:" + ("enharmonic" if pa == pb and (n1, o1) != (n2, o2) else "identical" if pa == pb else "less" if pa < pb else "greater")])
+                  (["pair:velocity/channel-differ"] if len(case) == 3 else []) + ["pair:" + ("enharmonic" if pa == pb and (n1, o1) != (n2, o2) else "identical" if pa == pb else "less" if pa < pb else "greater")])
 
 
 def check_sort(ctx, case):
@@ -263,6 +269,17 @@ def sub_notes(ctx, shard, n):
     ctx.enumerate("note", check_note, cases[shard::n], size_key=lambda c: (len(c[0]), c[1]))
 
 
+def _attr_pairs():
+    """pairs of notes with their own velocity and channel; half of them of equal pitch (identical or enharmonic spelling)"""
+    vc = st.tuples(st.integers(0, 127), st.integers(0, 15)).map(list)
+    by_pitch = {}
+    for nm, o in NOTES350:
+        by_pitch.setdefault(T.pitch(nm, o), []).append([nm, o])
+    same = st.sampled_from(sorted(by_pitch)).flatmap(lambda p: st.tuples(st.sampled_from(by_pitch[p]), st.sampled_from(by_pitch[p])))
+    anyp = st.tuples(st.sampled_from(NOTES350), st.sampled_from(NOTES350))
+    return st.tuples(same | anyp, st.tuples(vc, vc).map(list)).map(lambda t: [t[0][0], t[0][1], t[1]])
+
+
 def sub_pairs(ctx, shard, n):
     if ctx.quick:
         if shard == 0:
@@ -272,10 +289,12 @@ def sub_pairs(ctx, shard, n):
             ctx.enumerate("pair", check_pair, block)
         pair = st.tuples(st.sampled_from(NOTES350), st.sampled_from(NOTES350)).map(list)
         ctx.given("pair", check_pair, pair, 5000 // n)
+        ctx.given("pair", check_pair, _attr_pairs(), 3000 // n)
     else:
         if shard == 0:
             ctx.exhaustive("comparisons: all ordered pairs of 35 names x octaves 0..9 x six operators", "350 notes", len(NOTES350) ** 2)
         ctx.enumerate("pair", check_pair, ([a, b] for a in NOTES350[shard::n] for b in NOTES350))
+        ctx.given("pair", check_pair, _attr_pairs(), 40000 // n)
 
 
 def sub_sort(ctx, shard, n):
